@@ -1047,6 +1047,33 @@ def _e2e_hyps(case, m):
             "hyps_flat": bool(canonical and c01 and hn and ds)}
 
 
+class _E2EModel(dict):
+    """the model input of the END TO END observation; the attribute `hyps_arrays` (not serialised, not compared with the Lean
+    runner, which evaluates `hyps` only) carries the Python evaluation of `hypsA`, read by `tags`"""
+
+
+def _e2e_hyps_arrays(case, root, posted, base):
+    """Python transcription of the non-widget hypotheses of end_to_end_arrays_partial (Flatland/Spec/EndToEnd.lean `hypsA`:
+    C01's hypotheses, NO unchecked Boolean box, keySameB = the pairs of every key come in the same order in flatten() and in
+    what the form posts; no narrowB / hnodupB / dropSafe), on the REAL flatten() and the real posted pairs"""
+    def bools(t):
+        if t["t"] == "bool":
+            yield t
+        for kid in t.get("fields", []) + (t.get("members", []) if t["t"] == "list" else []):
+            yield from bools(kid)
+
+    def by_key(ps):
+        d = {}
+        for k, v in ps:
+            d.setdefault(k, []).append(v)
+        return d
+    flat, post = by_key(root.flatten()), by_key(posted)
+    key_same = all(vs == post.get(k, []) for k, vs in flat.items())
+    no_unchecked = all(b["u"] == b["true"] for b in bools(case["tree"]))
+    return {"c01_hyps": bool(base["c01_hyps"]), "no_unchecked": bool(no_unchecked), "key_same": bool(key_same),
+            "hyps_arrays": bool(base["c01_hyps"] and no_unchecked and key_same)}
+
+
 def _e2e_obs(case, root, results):
     from harness import flatlib
     if any(res["err"] or res["parsed"] is None for res in results):
@@ -1058,6 +1085,8 @@ def _e2e_obs(case, root, results):
     rebuilt = type(root).from_flat(posted)
     obs = {"posted": [[k, v] for k, v in posted], "rebuilt": flatlib.extract(rebuilt, m["schema"])}
     obs.update(_e2e_hyps(case, m))
+    m = _E2EModel(m)
+    m.hyps_arrays = _e2e_hyps_arrays(case, root, posted, obs)
     return obs, m
 
 
@@ -1160,8 +1189,33 @@ class C12(Property):
         "Flatland.EndToEnd.Proofs.exPrunedArr_hyps",
         "Flatland.EndToEnd.Proofs.fromFlat_formPairs_stable",
         "Flatland.EndToEnd.Proofs.exArr2_via_stable",
+        # END TO END with Arrays / MultiValues of any size (n1): both conditions of order_free_stable proved of canonical output
+        "Flatland.Flat.Proofs.hnodupA_flatten",
+        "Flatland.Flat.Proofs.krel_filterMap",
+        "Flatland.Flat.Proofs.krel_possibles",
+        "Flatland.Flat.Proofs.krel_eq_of_const_key",
+        "Flatland.Flat.Proofs.asame_congr_reach",
+        "Flatland.Flat.Proofs.asame_flatten",
+        "Flatland.Flat.Proofs.order_free_canonical",
+        "Flatland.Flat.Proofs.keySameB_sound",
+        "Flatland.EndToEnd.Proofs.fromFlat_formPairs_arrays",
+        "Flatland.EndToEnd.Proofs.end_to_end_arrays_at",
+        "Flatland.EndToEnd.Proofs.end_to_end_arrays_partial",
+        "Flatland.EndToEnd.Proofs.end_to_end_arrays_total",
+        "Flatland.EndToEnd.Proofs.end_to_end_arrays_generator",
+        "Flatland.EndToEnd.Proofs.dropSafe_array_false",
+        "Flatland.EndToEnd.Proofs.dropSafeL_array_false",
+        "Flatland.EndToEnd.Proofs.embed_formLike",
+        "Flatland.EndToEnd.Proofs.linked_formLike",
+        "Flatland.EndToEnd.Proofs.compound_not_linked",
+        "Flatland.EndToEnd.Proofs.exA_hypsA",
+        "Flatland.EndToEnd.Proofs.exA_only_arrays_applies",
+        "Flatland.EndToEnd.Proofs.exA_end_to_end",
+        "Flatland.EndToEnd.Proofs.exAB_outside",
+        "Flatland.EndToEnd.Proofs.exDate_not_linked",
+        "Flatland.EndToEnd.Proofs.exDateDict_not_linked",
     ]
-    extra_proof_modules = ["Proofs.EndToEndExamples"]
+    extra_proof_modules = ["Proofs.EndToEndExamples", "Proofs.EndToEndArraysExamples"]
     generated_obligations = []
     level_text = "proof"
     level_note = ("partial.  PROVED (model of the transforms + browser rule): text-like input / button / textarea carry (flat name, u) "
@@ -1957,9 +2011,18 @@ class C12(Property):
             if e2e is None:
                 t.append("e2e=outside-model")
             else:
-                t.append("e2e-theorem-applies" if (ok and e2e["hyps_flat"]) else "e2e-theorem-applies=false:%s" % (
-                    "formOk" if not ok else "c01" if not e2e["c01_hyps"] else "hnodup(array)" if not e2e["hnodup"]
+                # end_to_end_partial (`hyps`) OR end_to_end_arrays_partial (`hypsA`: Arrays of any size, no unchecked box)
+                ha = getattr(obs.get("_e2e_model"), "hyps_arrays", None) or {}
+                arr = bool(ha.get("hyps_arrays"))
+                t.append("e2e-theorem-applies" if (ok and (e2e["hyps_flat"] or arr)) else "e2e-theorem-applies=false:%s" % (
+                    "formOk" if not ok else "c01" if not e2e["c01_hyps"]
+                    else "keySame" if (ha and ha.get("no_unchecked") and not ha.get("key_same"))
+                    else "array+unchecked-box" if not e2e["hnodup"]
                     else "dropSafe" if not e2e["drop_safe"] else "boolsCanonical"))
+                if ok and arr and not e2e["hyps_flat"]:
+                    t.append("e2e-arrays-theorem-only")
+                if ok and ha and ha.get("c01_hyps") and ha.get("no_unchecked") and not ha.get("key_same"):
+                    t.append("e2e-keySame=false")
             nsub = sum(1 for r, o in zip(case["renders"], obs["renders"])
                        if r["tag"] == "button" or (r["tag"] == "input" and ascii_lower(str(self._type_of(r) or "")) == "submit"))
             t.append("form-submitters=%s" % (nsub if nsub < 2 else "2+"))
@@ -2055,7 +2118,15 @@ C12.level_note += (
     "(end_to_end_full_fails: unchecked Boolean in a SparseDict).  Tie: the real posted pairs go through the real from_flat and the "
     "rebuilt tree is compared with the model's fromFlat of the model's posted pairs; the hypotheses are evaluated on both sides "
     "and compared; where they hold the runner checks rebuilt = prS e (spec_agrees).  Oracle clause posted-from-flat-rebuilds.  "
-    "Arrays / MultiValues with two or more members (no order-free composition) and JoinedStrings: oracle only.")
+    "SCOPE of every end_to_end_* theorem: NOT 'every schema' -- a FormTree can only be linked to schemas built from String-like "
+    "scalars, Booleans, Arrays / MultiValues of such scalars, JoinedStrings, Dicts / SparseDicts and Lists; there is no FormTree "
+    "constructor for a Compound (DateYYYYMMDD) rendered as its parts' inputs, and a Compound holding a member is linked to no form "
+    "(linked_formLike, compound_not_linked, exDate_not_linked); Arrays / MultiValues with two or more members: "
+    "end_to_end_arrays_partial (hypsA = no narrowB / hnodupB; hnodupA_flatten and asame_flatten PROVE both conditions of C02's "
+    "order_free_stable of canonical flatten output, order_free_canonical) for forms WITHOUT an unchecked Boolean box (dropSafe is "
+    "false of every Array: dropSafe_array_false, exAB_outside -- an Array next to an unchecked box is oracle + correspondence only) "
+    "and under the executable hypothesis keySameB (same-key pairs in the same order in flatten() and in the form; measured on every "
+    "form case, tag e2e-keySame=false never seen; not proved); JoinedStrings: oracle only.")
 C12.rule += ("  Form-mode cases without a JoinedString also carry the END TO END observation (tag e2e-theorem-applies: "
              "about 69 % of form-mode cases meet every hypothesis of end_to_end_partial).")
 
